@@ -165,7 +165,9 @@ type vRangeCase struct {
 
 func vRangeCases(h *GetRangeResult, root []byte, donor *GetRangeResult, otherRoot []byte, foreign libshare.Share) []vRangeCase {
 	var out []vRangeCase
-	add := func(op, detail string, r *GetRangeResult, rt []byte) { out = append(out, vRangeCase{op, detail, r, rt}) }
+	add := func(op, detail string, r *GetRangeResult, rt []byte) {
+		out = append(out, vRangeCase{op, detail, r, rt})
+	}
 	mut := func(op, detail string, f func(r *GetRangeResult)) {
 		r := vCloneRange(h)
 		f(r)
@@ -485,6 +487,7 @@ func (c *vC12) checkRanges(b *vBlock, otherRoot []byte, owns func(key string) bo
 				}
 				if verr != nil {
 					c.st.out("range:rejected")
+					c.sample("range/rejected", map[string]any{"block": b.Spec.String(), "range": []int{s, e}, "shape": b.rangeKey(s, e), "operator": cs.Op, "at": cs.Detail, "verify": verr.Error()})
 					continue
 				}
 				if ok, why := vRangeClaimTrue(b, cs.R, cs.Root); !ok {
